@@ -97,7 +97,12 @@ def main(argv):
 	for m in todo:
 		root = make_copy()
 		try:
-			apply_mutant(root, m)
+			try:
+				apply_mutant(root, m)
+			except RuntimeError as e:
+				print("%-4s %-34s CATALOGUE ERROR: %s" % (m["prop"], m["id"], e))
+				bad += 1
+				continue
 			if "--suite" in argv and any(e["file"].endswith(".py") for e in m["edits"]):
 				ok_suite, tail = run_suite(root)
 				if not ok_suite:
